@@ -679,21 +679,36 @@ fn part_dgram(out: &mut Out, r: &mut Rng, a: &Args) {
         (3, 20, vec![Attempt { fault: b'-', pkts: vec![Pkt { off: 3, v: b'B' }] }, Attempt { fault: b'c', pkts: vec![] }]),
         (3, 20, vec![Attempt { fault: b'-', pkts: vec![Pkt { off: 3, v: b'R' }] }]),
         (100, 1, vec![]),
+        (255, 1, vec![]),
+        (255, 1, vec![Attempt { fault: b'-', pkts: vec![Pkt { off: 0, v: b'G' }] }]),
+        (254, 1, vec![Attempt { fault: b'-', pkts: vec![] }, Attempt { fault: b'-', pkts: vec![Pkt { off: 0, v: b'G' }] }]),
+        (101, 1, vec![]),
     ];
     for k in 0..n + corpus.len() as u64 {
-        let (retries, timeout, attempts) = if (k as usize) < corpus.len() { std::mem::take(&mut corpus[k as usize]).into() } else {
+        let (requested, timeout, attempts) = if (k as usize) < corpus.len() { std::mem::take(&mut corpus[k as usize]).into() } else if r.chance(1, 25) {
+            // retry budgets at and beyond the configuration cap (the setter trims; 1 + max_retries is u8 arithmetic)
+            let retries = *r.pick(&[99u8, 100, 101, 200, 254, 255]);
+            let attempts: Vec<Attempt> = match r.below(3) {
+                0 => vec![],
+                1 => vec![Attempt { fault: b'-', pkts: vec![Pkt { off: 0, v: b'G' }] }],
+                _ => (0..r.range(1, 4)).map(|_| gen_attempt(r, 2)).collect(),
+            };
+            (retries, 2, attempts)
+        } else {
             let retries = r.below(4) as u8;
             let timeout = *r.pick(&[20u64, 50, 100, 1000]);
             let attempts: Vec<Attempt> = (0..retries as u64 + 1 + r.below(2)).map(|_| gen_attempt(r, timeout)).collect();
             (retries, timeout, attempts)
         };
+        // what the configuration says after the setter trimmed the value
+        let retries = { let mut c = dgram::Config::new(); c.set_max_retries(requested); c.max_retries() };
         let case = format!("dg {} {} {}", retries, timeout, if attempts.is_empty() { "-".to_string() } else { attempts.iter().map(attempt_tok).collect::<Vec<_>>().join("|") });
         out.begin(&case);
         let q = question(1);
         let res = run_dgram(retries, timeout, attempts.clone(), q.clone());
         let budget = (retries as u64 + 1) * timeout;
         let sends = res.sent.len();
-        if let Some(p) = &res.panicked { out.check(false, "panic_transport", &case, p); }
+        if let Some(p) = &res.panicked { out.check(false, "panic_transport", &case, &format!("set_max_retries({}) -> max_retries() = {}: the request panicked: {}", requested, retries, p)); }
         let obs = match &res.res {
             Ok(m) => { let h = parse_hdr(m).unwrap(); format!("Ok t={} sends={} rcode={} tc={} an={}", res.elapsed, sends, h.rcode, h.tc as u8, h.an) }
             Err(c) => format!("Err {} t={} sends={}", c, res.elapsed, sends),
@@ -1011,6 +1026,119 @@ async fn run_timeout_probe_multi(wait_ms: u64) -> Option<String> {
     match r { Ok(Ok(_)) => Some("ok".into()), Ok(Err(e)) => Some(err_class(&e)), Err(_) => None }
 }
 
+/// A request whose stream frame would be `wire_len` octets: header, the
+/// question of caller k and one additional record of an unassigned type padded
+/// to size (owner root, no compression on this path); `extra` = octets the
+/// transport will add (its edns-tcp-keepalive OPT on the first request).
+fn sized_request(k: usize, wire_len: usize, extra: usize) -> Option<RequestMessage<Vec<u8>>> {
+    let q = question(k);
+    let fixed = 12 + q.name.len() + 4 + 11 + extra;
+    if wire_len < fixed || wire_len - fixed > 65535 { return None; }
+    let rdlen = wire_len - fixed;
+    let mut m = vec![0u8, 0, 0x01, 0x00, 0, 1, 0, 0, 0, 0, 0, 1];
+    m.extend_from_slice(&q_wire(&q));
+    m.extend_from_slice(&[0, 0xff, 0x00, 0, 1, 0, 0, 0, 0]);
+    m.extend_from_slice(&(rdlen as u16).to_be_bytes());
+    m.extend(std::iter::repeat(0x5a).take(rdlen));
+    RequestMessage::new(Message::from_octets(m).ok()?).ok()
+}
+
+/// Requests at the edge of what the two octet length prefix can carry: 65535
+/// octets must go out as one well-formed frame, anything longer must fail at
+/// once without a single octet written, and the connection must stay usable.
+/// No timers: the response timeout is 600 s, progress is made by yields.
+/// Returns (failures, skipped-because-the-size-calibration-did-not-hold).
+async fn run_oversize_script(sizes: Vec<usize>) -> (Vec<(&'static str, String)>, bool) {
+    let mut fails = Vec::new();
+    let (client, server) = tokio::io::duplex(1 << 18);
+    let mut cfg = stream::Config::new();
+    cfg.set_response_timeout(Duration::from_secs(600));
+    cfg.set_idle_timeout(Duration::from_secs(3600));
+    let (conn, transport) = stream::Connection::<RequestMessage<Vec<u8>>, RequestMessageMulti<Vec<u8>>>::with_config(client, cfg);
+    let th = tokio::spawn(transport.run());
+    let (mut rd, mut wr) = tokio::io::split(server);
+    // frames as the peer sees them: (declared length, octets)
+    let frames: Arc<Mutex<Vec<Vec<u8>>>> = Arc::new(Mutex::new(vec![]));
+    let f2 = frames.clone();
+    let ph = tokio::spawn(async move {
+        loop {
+            let len = match rd.read_u16().await { Ok(l) => l as usize, Err(_) => return };
+            let mut buf = vec![0u8; len];
+            if rd.read_exact(&mut buf).await.is_err() { return; }
+            f2.lock().unwrap().push(buf);
+        }
+    });
+    let settle = || async { for _ in 0..4096 { tokio::task::yield_now().await; } };
+    let submit = |k: usize, req: RequestMessage<Vec<u8>>| {
+        let done: Arc<Mutex<Option<Result<Vec<u8>, String>>>> = Arc::new(Mutex::new(None));
+        let d2 = done.clone();
+        let mut g = SendRequest::send_request(&conn, req);
+        let h = tokio::spawn(async move { let r = g.get_response().await; *d2.lock().unwrap() = Some(r.map(|m| m.as_slice().to_vec()).map_err(|e| err_class(&e))); });
+        let _ = k;
+        (done, h)
+    };
+    // 1: an ordinary first request takes the keepalive option with it
+    let (d0, h0) = submit(0, request_for(&question(0)));
+    settle().await;
+    let ok0 = { let f = frames.lock().unwrap(); f.len() == 1 && parse_qs(&f[0]).as_deref() == Some(std::slice::from_ref(&question(0))) };
+    if !ok0 { h0.abort(); ph.abort(); th.abort(); return (fails, true); }
+    let id0 = parse_hdr(&frames.lock().unwrap()[0]).unwrap().id;
+    let _ = frame(&mut wr, &reply(b'G', id0, &question(0), false)).await;
+    settle().await;
+    if !matches!(&*d0.lock().unwrap(), Some(Ok(_))) { h0.abort(); ph.abort(); th.abort(); return (fails, true); }
+    // 2: calibration: a request built for 65535 octets must arrive as exactly that
+    let (d1, h1) = match sized_request(1, 65535, 0) { Some(rq) => submit(1, rq), None => { ph.abort(); th.abort(); return (fails, true); } };
+    settle().await;
+    let cal = { let f = frames.lock().unwrap(); f.len() == 2 && f[1].len() == 65535 && parse_qs(&f[1]).as_deref() == Some(std::slice::from_ref(&question(1))) };
+    if !cal { h1.abort(); ph.abort(); th.abort(); return (fails, true); }
+    let id1 = parse_hdr(&frames.lock().unwrap()[1]).unwrap().id;
+    let _ = frame(&mut wr, &reply(b'G', id1, &question(1), false)).await;
+    settle().await;
+    if !matches!(&*d1.lock().unwrap(), Some(Ok(m)) if answers(m, id1, &question(1))) {
+        fails.push(("wrong_reply_delivered", "the 65535 octet request was not answered with its own reply".to_string()));
+    }
+    // 3: longer requests
+    let mut hs = vec![h0, h1];
+    for (i, sz) in sizes.iter().enumerate() {
+        let k = 2 + i;
+        let before = frames.lock().unwrap().len();
+        let rq = match sized_request(k, *sz, 0) { Some(rq) => rq, None => continue };
+        let (d, h) = submit(k, rq);
+        settle().await;
+        hs.push(h);
+        let after: Vec<usize> = frames.lock().unwrap()[before..].iter().map(|f| f.len()).collect();
+        if !after.is_empty() {
+            fails.push(("stream_framing_broken", format!("a request of {} octets cannot be framed, yet the peer received frame(s) of {:?} octets", sz, after)));
+        }
+        let st = d.lock().unwrap().clone();
+        match st {
+            Some(Err(_)) => {}
+            Some(Ok(_)) => fails.push(("wrong_reply_delivered", format!("a request of {} octets that cannot be framed got a response", sz))),
+            None => fails.push(("oversize_request_not_refused", format!("a request of {} octets does not fit the two octet length prefix but did not fail at once (still pending)", sz))),
+        }
+    }
+    // 4: the connection is still in step
+    let k = 2 + sizes.len();
+    let before = frames.lock().unwrap().len();
+    let (d, h) = submit(k, request_for(&question(k)));
+    settle().await;
+    hs.push(h);
+    let seen_ok = { let f = frames.lock().unwrap(); f.len() == before + 1 && parse_qs(&f[before]).as_deref() == Some(std::slice::from_ref(&question(k))) };
+    if !seen_ok {
+        fails.push(("stream_framing_broken", format!("after requests of {:?} octets an ordinary request no longer arrives as one well-formed frame", sizes)));
+    } else {
+        let id = parse_hdr(&frames.lock().unwrap()[before]).unwrap().id;
+        let _ = frame(&mut wr, &reply(b'G', id, &question(k), false)).await;
+        settle().await;
+        if !matches!(&*d.lock().unwrap(), Some(Ok(m)) if answers(m, id, &question(k))) {
+            fails.push(("never_completes", format!("after requests of {:?} octets an ordinary request on the same connection is not answered", sizes)));
+        }
+    }
+    for h in hs { h.abort(); }
+    ph.abort(); th.abort();
+    (fails, false)
+}
+
 fn part_stream(out: &mut Out, r: &mut Rng, a: &Args) -> (u64, u64) {
     let rt = tokio::runtime::Builder::new_current_thread().enable_all().build().unwrap();
     // Does the configured response timeout take effect at all?  If it does not,
@@ -1081,6 +1209,15 @@ fn part_stream(out: &mut Out, r: &mut Rng, a: &Args) -> (u64, u64) {
     out.oracle_case(&case, true, "stream_unrelated_traffic");
     out.check(at.map_or(false, |k| k <= 20), "timeout_extended_by_unknown_id_replies", &case,
         &format!("request completed after {:?} unsolicited replies ({:?}); response timeout is {} ms, replies every {} ms", at, res, STREAM_TIMEOUT_MS, STREAM_TIMEOUT_MS / 3));
+    // the edge of the two octet length prefix
+    for sizes in [vec![65536usize], vec![65537, 65536, 65540], vec![65536 + r.below(4) as usize, 70000]] {
+        let case = format!("stream oversize requests of {:?} octets after one of 65535", sizes);
+        out.begin(&case);
+        let (fails, skipped) = rt.block_on(run_oversize_script(sizes.clone()));
+        out.oracle_case(&case, true, "stream_oversize");
+        if skipped { out.count("stream_oversize_calibration_skipped"); }
+        out.check(fails.is_empty() || skipped, fails.first().map_or("", |f| f.0), &case, &fails.iter().map(|f| f.1.clone()).collect::<Vec<_>>().join("; "));
+    }
     // new requests must not keep an older request waiting beyond its timeout:
     // timeout 200 ms, a new request every 60 ms, up to 20 of them (6 x the
     // timeout); the first request has to time out after about 3 of them (8
